@@ -431,6 +431,12 @@ _EXTRA7B = {
 for _k, _v in _EXTRA7B.items():
     CHECKS[_k]["rule"] += _v
 
+# C09: long rejection chains, also on a build of the crate WITHOUT optimisation
+CHECKS["C09"]["legs"].append({"name": "deep-rejection", "profiles": ["release", "dev0"]})
+CHECKS["C09"]["rule"] += (" Deep-rejection leg: one sampler call whose first 10^3 .. 3*10^6 (thorough: 10^7) candidates fail the Bernoulli test, "
+                          "in child processes (main thread and a 2 MiB spawned thread), on the release build and on the dev0 profile (the crate compiled "
+                          "at opt-level 0, as `cargo build` / `cargo test` do by default): a process abort (stack overflow) is a totality violation.")
+
 NOT_APPLICABLE = {}
 
 ENGINES = [
